@@ -295,11 +295,14 @@ PROPS = {
                 "is in descending salience in every reachable state; the lock acquisition order read from the source is one global order with `rules` first. The full sequential refinement is a theorem (Proofs/KBRefineProofs.v, simulation invariant Sim): for EVERY operation "
                 "sequence the model shows, after every operation, exactly what the abstract specification shows (result, listing, lookup of every name, version) - lookup = the stored rule of that name, a duplicate refused "
                 "without effect, listing = every stored rule once by salience descending and insertion order among equals (a strict total order; the code's stable sort of an already sorted vector plus one element is an insertion). "
-                "Linearizability of concurrent histories against that specification is the Coq-defined checker KB.lin evaluated on the real KnowledgeBase under perturbed schedules (a monitor, not a theorem: the interleavings are "
+                "Several threads at once is a theorem on a lock-level model (Model/KBConc.v, Proofs/KBConc*.v): threads run the methods as micro-steps (invoke, acquire each guard of the acquisition list the translator reads from the source, "
+                "compute the sequential body on the cells as they are, write the changed cells back one cell per step, drop the guards one per step, respond) under EVERY schedule; proved: every quiescent history is linearizable with the results "
+                "the threads really computed (C15_every_interleaving_linearizable), the cells equal the linearized state, the monitor accepts every such run, and no schedule deadlocks (C15_no_deadlock; one global ascending lock order). "
+                "On the real threads linearizability is the Coq-defined checker KB.lin evaluated on the real KnowledgeBase under perturbed schedules (a monitor: the interleavings are "
                 "produced by the real threads). The checker itself is proved correct (Proofs/KBLinProofs.v, C15_lin_checker_decides): with the fuel the monitor passes, lin answers true exactly when the observed events "
                 "have a real-time-respecting permutation on which the sequential specification returns every observed result - an accepted run is linearizable and a linearizable run is never reported.",
-        "level_note": "Trusted: Coq kernel; model of knowledge_base.rs (method bodies atomic because every method takes all its locks first and holds them to the end - checked syntactically by consts.py); "
-                "std RwLock mutual exclusion; OS scheduler only sampled (partial: thread runtime). Axioms: none.",
+        "level_note": "Trusted: Coq kernel; model of knowledge_base.rs; the lock-level model (a thread's own accesses to a cell inside its guard region normalised to read-at-compute / write-back-afterwards; a cell is reached only through its guard - Rust's typing; "
+                "acquisition lists, guards held to the end and no unguarded access read from the source by consts.py); std RwLock excludes as modelled (writer alone, readers share; fairness not modelled); real OS schedules only sampled (partial: thread runtime). Axioms: none.",
         "trusted_base": ["std::sync::RwLock provides mutual exclusion; Vec::sort_by_key is a stable sort"],
         "assumptions": ["rules are identified by a tag stored in Rule.description"],
     },
